@@ -30,6 +30,13 @@ fn run(kind: &str, m: usize, items: &[u64], mode: &str, twice: bool) -> Result<O
                 let mut s = $T::<f64, u64, FnvHasher>::new(m, BuildHasherDefault::<FnvHasher>::default());
                 if mode == "slice" {
                     if s.sketch_slice(&items).is_err() { return None; }
+                } else if let Some(split) = mode.strip_prefix("resume:") {
+                    // finish, go on streaming into the same sketch, finish again
+                    let split: usize = split.parse().unwrap();
+                    for x in &items[..split] { s.sketch(x); }
+                    s.end_sketch();
+                    for x in &items[split..] { s.sketch(x); }
+                    s.end_sketch();
                 } else {
                     for x in &items { s.sketch(x); }
                     s.end_sketch();
@@ -61,6 +68,21 @@ fn check(kind: &str, m: usize, items: &[u64]) -> Option<(String, String)> {
     match run(kind, m, items, "itemwise", true) {
         Ok(Some(c)) if c == a => {}
         other => return Some((format!("second end_sketch changed the sketch: {:?}", other.map(|o| o.map(|v| v.u64v))), format!("{:?}", a.u64v))),
+    }
+    // finishing, streaming on and finishing again: returns, is stable under one more finish, holds only hashes of streamed items
+    let hashes0: Vec<u64> = items.iter().map(|x| { use std::hash::BuildHasher; BuildHasherDefault::<FnvHasher>::default().hash_one(&x) }).collect();
+    for split in [1usize, items.len() / 2, items.len().saturating_sub(1)] {
+        if split == 0 || split >= items.len() { continue; }
+        let md = format!("resume:{split}");
+        let r1 = match run(kind, m, items, &md, false) { Ok(v) => v, Err(e) => return Some((format!("finish after {split} items, stream the rest, finish: {e}"), "returns".into())) };
+        let r1 = match r1 { Some(v) => v, None => return Some((format!("finish after {split} items, stream the rest, finish again: aborted"), "a finished sketch (the stream is not empty)".into())) };
+        match run(kind, m, items, &md, true) {
+            Ok(Some(c)) if c == r1 => {}
+            other => return Some((format!("resumed stream (split {split}): one more end_sketch changed the sketch: {:?}", other.map(|o| o.map(|v| v.u64v))), format!("{:?}", r1.u64v))),
+        }
+        for i in 0..m {
+            if !hashes0.contains(&r1.u64v[i]) { return Some((format!("resumed stream (split {split}): position {i} holds {} which is not the hash of a streamed item", r1.u64v[i]), "hash of a streamed item".into())); }
+        }
     }
     // every position holds the hash of a streamed item; equal u64 => equal float and u32
     let hashes: Vec<u64> = items.iter().map(|x| { use std::hash::BuildHasher; BuildHasherDefault::<FnvHasher>::default().hash_one(&x) }).collect();
